@@ -1550,6 +1550,16 @@ class Ex:
         return VBool(result)
 
     def compare(self, op, a, b, node=None):
+        if isinstance(op, (ast.Eq, ast.NotEq)) and isinstance(a, VObj) and not self.spec_mode:
+            # a user class that defines __eq__ / __ne__: the comparison is that method
+            from vf.pyvc.values import REC_CLASSES as _RC
+            mod_ = self.world.module_of_class(a.cls) if a.cls not in _RC else None
+            nm_ = "__eq__" if isinstance(op, ast.Eq) else "__ne__"
+            hit_ = mod_.mro_lookup(a.cls, nm_) if mod_ is not None else None
+            if hit_ is None and nm_ == "__ne__" and mod_ is not None and mod_.mro_lookup(a.cls, "__eq__") is not None:
+                return z3.Not(self.compare(ast.Eq(), a, b, node))
+            if hit_ is not None and hit_[0] == "method":
+                return self.truth(self.call(self.getattr(a, nm_), [b], {}))
         if isinstance(op, ast.Eq):
             return self.eq(a, b, goal=getattr(node, "_goal", False))
         if isinstance(op, ast.NotEq):
